@@ -597,6 +597,12 @@ ANCHOR_HELPERS = {'get_full_name_for_sql', 'get_full_name_for_dbml', 'prepare_te
                   'render_inline_reference', 'render_not_inline_reference', 'reorder_tables_for_sql', 'render', 'render_db', 'table_is_composite_pk'}
 
 
+def access_path_simple(e: ast.AST) -> bool:
+    while isinstance(e, ast.Attribute):
+        e = e.value
+    return isinstance(e, ast.Name)
+
+
 class TemplateIndex:
     def __init__(self, idx: PyIndex, modules_prefix: Tuple[str, ...] = ('pydbml.renderer.', 'pydbml.tools')):
         self.idx = idx
@@ -643,6 +649,26 @@ class TemplateIndex:
 
     def expand_g(self, s: Sink, depth: int = 0) -> List[Tuple[Sink, List[str], List[Tuple[str, bool]]]]:
         return [(f, w, g) for f, w, g, _ in self.expand_c(s, depth)]
+
+    @staticmethod
+    def _arg_map(s: Sink, w: str, callee: FuncInfo) -> Dict[str, str]:
+        """Parameters of `callee` bound to plain names / attribute paths by the wrapper call `w(...)` inside the hole of `s`: {parameter: source of the argument}."""
+        call = None
+        for x in ast.walk(s.node):
+            if isinstance(x, ast.Call) and ((isinstance(x.func, ast.Name) and x.func.id == w) or (isinstance(x.func, ast.Attribute) and x.func.attr == w)):
+                call = x
+                break
+        if call is None or not isinstance(callee.node, ast.FunctionDef):
+            return {}
+        params = [x.arg for x in callee.node.args.args]
+        out: Dict[str, str] = {}
+        for pn, a in zip(params, call.args):
+            if isinstance(a, ast.Name) or (isinstance(a, ast.Attribute) and access_path_simple(a)):
+                out[pn] = norm(a)
+        for k in call.keywords:
+            if k.arg and (isinstance(k.value, ast.Name) or (isinstance(k.value, ast.Attribute) and access_path_simple(k.value))):
+                out[k.arg] = norm(k.value)
+        return out
 
     @staticmethod
     def _const_args(s: Sink, w: str, callee: FuncInfo) -> Dict[str, object]:
@@ -722,6 +748,37 @@ class TemplateIndex:
                             inner = spec
                 if consts:
                     inner = [si for si in inner if not any(g[0] in consts and bool(consts[g[0]]) != g[1] for g in si.guards)]
+                # a test the caller has already decided on the value it passes (`if '\\n' not in text: return helper(text)`) decides the same test on the
+                # callee's parameter: callee contexts under the opposite outcome are infeasible at this call site
+                amap = self._arg_map(s, w, callee)
+                if amap and s.guards:
+                    import re as _re
+
+                    def in_caller_terms(gtxt: str) -> str:
+                        for pn, av in amap.items():
+                            gtxt = _re.sub(r'(?<![\w.])' + _re.escape(pn) + r'(?![\w])', av, gtxt)
+                        return gtxt
+                    def canon(gtxt: str, pol: bool):
+                        """(positive form of the test, polarity): `a not in b` / `a != b` / `a is not b` / `not a` are the negations of their positive forms"""
+                        try:
+                            e = ast.parse(gtxt, mode='eval').body
+                        except SyntaxError:
+                            return gtxt, pol
+                        for _ in range(3):
+                            if isinstance(e, ast.UnaryOp) and isinstance(e.op, ast.Not):
+                                e, pol = e.operand, not pol
+                            elif isinstance(e, ast.Compare) and len(e.ops) == 1 and isinstance(e.ops[0], (ast.NotIn, ast.NotEq, ast.IsNot)):
+                                pos = {ast.NotIn: ast.In, ast.NotEq: ast.Eq, ast.IsNot: ast.Is}[type(e.ops[0])]()
+                                e, pol = ast.Compare(left=e.left, ops=[pos], comparators=e.comparators), not pol
+                            else:
+                                break
+                        return norm(e), pol
+                    decided = dict(canon(g[0], g[1]) for g in s.guards)
+
+                    def contradicted(g) -> bool:
+                        t, pol = canon(in_caller_terms(g[0]), g[1])
+                        return t in decided and decided[t] != pol
+                    inner = [si for si in inner if not any(contradicted(g) for g in si.guards)]
                 for si in inner:
                     for fin, ws, gs, ch in self.expand_c(si, depth + 1):
                         res.append((fin, s.wrappers[:k] + ws, list(s.guards) + gs, [s] + ch))
